@@ -7,6 +7,8 @@ oracle : independent of Lean —
          (b) API sweep: every public multi-array entry point with pairs of specs differing in one field must raise
              ValueError("Arrays must have same spec") at build time, unless no returned array's plan contains both inputs
              and the only argument evaluated eagerly is an index argument;
+         (b') history independence: after two distinct-but-equal Specs were combined and one was freed, a differing Spec
+             allocated at the freed address must still be rejected (verdict depends on the specs' values only);
          (c) for accepted plans every op's allowed_mem/reserved_mem in the finalized plan is the spec's, and the
              admission decision is the one computed from the spec's budget.
 """
@@ -1060,6 +1062,105 @@ def oracle_budget(ctx, pools):
 
 
 # ------------------------------------------------------------------------------------------------
+# history independence: the verdict on (specA, specB) depends only on the specs' values
+# ------------------------------------------------------------------------------------------------
+
+def _history_session(op_name, op, field, base_kw, other_kw, freed_first, max_alloc=20000):
+    """One session in this process:  (1) two distinct-but-equal Spec objects are combined (accepted);  (2) one of them and
+    every array referencing it is freed;  (3) Specs that differ in `field` are allocated until one lands on the freed
+    address;  (4) an array under it is combined with an array under the surviving spec -> must raise.
+    Objects live in a dict, not in locals (cubed snapshots callers' frame locals for array naming).
+    Returns ('ok'|'no-reuse'|'bad-setup', detail) or ('accepted', detail)."""
+    import gc
+
+    import cubed
+    import cubed.array_api as xp
+    st = {}
+    st["sa"] = cubed.Spec(**base_kw)
+    st["sb"] = cubed.Spec(**base_kw)
+    if st["sa"] is st["sb"] or not (st["sa"] == st["sb"]):
+        return "bad-setup", "equal kwargs do not give equal distinct specs"
+    mkarr = lambda sp: xp.ones((4, 4), chunks=(2, 2), spec=sp)   # noqa: E731
+    st["a"], st["b"] = mkarr(st["sa"]), mkarr(st["sb"])
+    try:
+        st["c"] = op(st["b"], st["a"]) if freed_first else op(st["a"], st["b"])
+    except Exception as e:
+        return "bad-setup", "equal specs rejected: %r" % (e,)
+    old_id = id(st["sb"])
+    del st["b"], st["c"], st["sb"]
+    gc.collect()
+    st["keep"] = []
+    for n in range(max_alloc):
+        st["sc"] = cubed.Spec(**other_kw)
+        if id(st["sc"]) == old_id:
+            break
+        st["keep"].append(st.pop("sc"))
+    else:
+        return "no-reuse", None
+    del st["keep"]
+    if st["sc"] == st["sa"]:
+        return "bad-setup", "specs meant to differ in %s are equal" % field
+    st["b2"] = mkarr(st["sc"])
+    try:
+        st["d"] = op(st["b2"], st["a"]) if freed_first else op(st["a"], st["b2"])
+    except ValueError as e:
+        if SPEC_MSG in str(e):
+            return "ok", n
+        return "accepted", "raised another ValueError: %s" % str(e)[:80]
+    except Exception as e:
+        return "accepted", "raised %r instead of the spec ValueError" % (e,)
+    d = st["d"]
+    under = getattr(getattr(d, "spec", None), field if field != "executor_name" else "executor", None)
+    return "accepted", "accepted; allocations until address reuse: %d; result spec.%s = %r" % (n, field, under)
+
+
+def oracle_history(ctx, pools, seconds=6.0):
+    import time
+
+    import cubed
+    import cubed.array_api as xp
+    from cubed.core.array import check_array_specs
+    w1 = os.path.join(pools.tmp, "w1")
+    base = dict(work_dir=w1, allowed_mem=100_000, reserved_mem=1_000)
+    variants = {
+        "allowed_mem": dict(base, allowed_mem=200_000),
+        "reserved_mem": dict(base, reserved_mem=2_000),
+        "work_dir": dict(base, work_dir=os.path.join(pools.tmp, "w2")),
+        "executor_name": dict(base, executor_name="single-threaded"),
+    }
+    ops = [("add", xp.add), ("concat", lambda x, y: xp.concat([x, y])), ("stack", lambda x, y: xp.stack([x, y])),
+           ("matmul", xp.matmul), ("plan", lambda x, y: cubed.plan(x, y)),
+           ("check_array_specs", lambda x, y: check_array_specs([x, y]))]
+    combos = [(f, o, ff) for f in variants for o in ops for ff in (False, True)]
+    ctx.rng.shuffle(combos)
+    # every field and every op at least once early on
+    t0 = time.time()
+    reused = 0
+    for i, (field, (op_name, op), freed_first) in enumerate(combos):
+        if time.time() - t0 > seconds and i >= 8:
+            break
+        out, detail = _history_session(op_name, op, field, base, variants[field], freed_first)
+        case = {"session": ["specA = Spec(%s); specB = Spec(same kwargs)  (distinct objects)" % base,
+                            "%s(%s) with arrays ones((4,4), chunks=(2,2)) under specA / specB  -> accepted" % (op_name, "b, a" if freed_first else "a, b"),
+                            "del specB and every array under it; gc.collect()",
+                            "allocate Spec(%s) until id() equals the freed spec's id" % {k: v for k, v in variants[field].items() if base.get(k) != v},
+                            "%s(%s) with the new array under that spec -> must raise ValueError(%r)" % (op_name, "b2, a" if freed_first else "a, b2", SPEC_MSG)],
+                "differs_in": field, "op": op_name, "freed_spec_is_first_argument": freed_first}
+        ctx.count({"history": op_name, "field": field, "freed_first": freed_first, "outcome": out}, nontrivial=out in ("ok", "accepted"),
+                  kind="history:" + out)
+        if out in ("ok", "accepted"):
+            reused += 1
+        if out == "accepted":
+            ctx.fail("history dependence: %s of arrays whose specs differ in %s is accepted after an equal pair was combined and one "
+                     "spec's address was reused (%s)" % (op_name, field, detail), case)
+        elif out == "bad-setup":
+            ctx.notes.append("history oracle: %s/%s: %s" % (op_name, field, detail))
+    ctx.extra["history_sessions_with_address_reuse"] = reused
+    if reused == 0:
+        ctx.notes.append("history oracle: no Spec address was reused in %d sessions (nothing checked)" % (i + 1))
+
+
+# ------------------------------------------------------------------------------------------------
 # direct oracle on literals
 # ------------------------------------------------------------------------------------------------
 
@@ -1160,6 +1261,7 @@ def oracle(ctx):
     _guard(ctx, "literals", oracle_literals, ctx)
     with _Tmp() as tmp:
         pools = Pools(tmp)
+        _guard(ctx, "history", oracle_history, ctx, pools)
         _guard(ctx, "sweep", oracle_sweep, ctx, pools)
         _guard(ctx, "budget", oracle_budget, ctx, pools)
 
@@ -1173,6 +1275,7 @@ def search(ctx):
         _guard(ctx, "literals", oracle_literals, ctx)
         with _Tmp() as tmp:
             pools = Pools(tmp)
+            _guard(ctx, "history", oracle_history, ctx, pools, seconds=20.0)
             _guard(ctx, "sweep", oracle_sweep, ctx, pools, full=True)
             _guard(ctx, "budget", oracle_budget, ctx, pools)
             # disagreeing spec pairs lifted to an end-to-end case: add(a, b) must reject what the model calls unequal
